@@ -266,7 +266,7 @@ def invariance_cases(draw):
     base = draw(st.sampled_from((100, 4000, 40000)))
     n = draw(st.integers(12, 40))
     rows = draw(gs.price_rows(n, grid=grid, base=base))
-    return {"kind": "invariance", "stream": [[None] + r for r in rows], "k": draw(st.integers(-2, 5)), "shift_ticks": draw(st.integers(-50, 4000)), "tick": grid[0], "length": draw(st.integers(1, 6))}
+    return {"kind": "invariance", "stream": [[None] + r for r in rows], "k": draw(st.sampled_from((-24, -20, -17, -12, -6, -2, -1, 1, 2, 5, 10))), "shift_ticks": draw(st.integers(-50, 4000)), "tick": grid[0], "length": draw(st.integers(1, 6))}
 
 
 def _predicates(rows, length):
